@@ -24,7 +24,7 @@ HDR = "import LspVerif.Spec.Dotnet\nimport LspVerif.Props.C04\nimport GenMeta\ni
 
 EVAL = HDR + """#eval do
   let ms := Gen.model.structures.flatMap (recordMismatches Gen.model Gen.dotnet) ++ dotnetRest Gen.model Gen.dotnet
-  for m in ms do IO.println s!"MISMATCH\\t{m.site}\\t{m.aspect}\\t{m.expected}\\t{m.actual}"
+  for m in ms do IO.println s!"MISMATCH\\t{m.site}\\t{m.aspect}\\t{m.expected.replace "\\n" " "}\\t{m.actual.replace "\\n" " "}"
 """
 
 KF_KEY = "C08|notification-classes|no-method-string"
@@ -80,7 +80,7 @@ theorem C08_partial : (∀ s ∈ Gen.model.structures, recordMismatches Gen.mode
         if failed:
             f = common.write_module(ctx.work, "Eval", EVAL)
             q = subprocess.run(["lean", str(f)], capture_output=True, text=True, env=common.lean_env(ctx.work), cwd=str(ctx.work))
-            mm = [l.split("\t")[1:] for l in q.stdout.splitlines() if l.startswith("MISMATCH\t")]
+            mm = [(l.split("\t")[1:] + ["", "", "", ""])[:4] for l in q.stdout.splitlines() if l.startswith("MISMATCH\t")]
             for site, aspect, exp, act in mm[:40]:
                 ctx.violation(f"C08|{site}|{aspect}", f".cs files as emitted by the dotnet plugin: {site} {aspect}: expected {exp[:160]}, found {act[:160]}",
                               {"item": site, "aspect": aspect, "expected": exp, "found": act,
